@@ -585,3 +585,67 @@ func init() {
 		fmt.Println("REPLAY: not-reproduced")
 	}
 }
+
+func init() {
+	rolling := func(in map[string]any) {
+		dir, err := os.MkdirTemp("", "govc-replay-rolling-")
+		if err != nil {
+			fmt.Println("REPLAY: not-reproduced (no temp dir)")
+			return
+		}
+		defer os.RemoveAll(dir)
+		readAll := func() string {
+			var sb strings.Builder
+			es, _ := os.ReadDir(dir)
+			for _, e := range es {
+				b, _ := os.ReadFile(dir + "/" + e.Name())
+				sb.Write(b)
+			}
+			return sb.String()
+		}
+		for _, async := range []bool{false, true} {
+			for _, withLayout := range []bool{false, true} {
+				f := &RollingFileLogger{
+					LoggerBase: LoggerBase{Name: "r", Level: LevelRange{NoneLevel, MaxLevel}},
+					FileDir:    dir, FileName: fmt.Sprintf("app-%v-%v.log", async, withLayout),
+					Rotation: TimeRotation{Interval: 3600e9}, MaxAge: 1,
+					AsyncWrite: async, BufferSize: 1000, BufferFullPolicy: BufferFullPolicyBlock,
+				}
+				if withLayout {
+					f.Layout = &TextLayout{BaseLayout{FileLineLength: 48}}
+				}
+				if err := f.Start(); err != nil {
+					fmt.Printf("REPLAY: confirmed RollingFileLogger(async=%v, layout=%v).Start failed: %v\n", async, withLayout, err)
+					return
+				}
+				marker := fmt.Sprintf("marker-%v-%v", async, withLayout)
+				var pan any
+				func() {
+					defer func() { pan = recover() }()
+					e := GetEvent()
+					e.Level = InfoLevel
+					e.Tag = "_replay_rolling"
+					e.Fields = []Field{Msg(marker)}
+					f.Append(e)
+				}()
+				if pan != nil {
+					fmt.Printf("REPLAY: confirmed RollingFileLogger(async=%v, logger layout=%v): Append panics: %v (the file appenders were given no layout)\n", async, withLayout, pan)
+					return
+				}
+				f.Stop()
+				if !strings.Contains(readAll(), marker) {
+					disc := int64(-1)
+					if al, ok := f.logger.(*AsyncLogger); ok {
+						disc = al.GetDiscardCounter()
+					}
+					fmt.Printf("REPLAY: confirmed RollingFileLogger(async=%v, logger layout=%v): after Stop the accepted event is not in the file (inner logger never started/stopped; discard counter=%d)\n", async, withLayout, disc)
+					return
+				}
+			}
+		}
+		fmt.Println("REPLAY: not-reproduced")
+	}
+	replayers["initRollingFileLogger"] = rolling
+	replayers["(*RollingFileLogger).Stop"] = rolling
+	replayers["(*RollingFileLogger).Start"] = rolling
+}
